@@ -1,6 +1,6 @@
 (* C18 - transects: pieces listed in path order with start never after end; data paired with its own cell. *)
 From Coq Require Import ZArith QArith List Bool Sorted Permutation.
-From EV Require Import Model.Transect Proofs.TransectP.
+From EV Require Import Model.Transect Proofs.TransectP Model.TransectDist Proofs.TransectDistP.
 Import ListNotations.
 Open Scope Q_scope.
 
@@ -36,3 +36,37 @@ Print Assumptions C18_data_pairing.
 Theorem C18_data_length : forall (A : Type) (d : A) columns lin, length (prepare d columns lin) = length lin.
 Proof. exact @prepare_length. Qed.
 Print Assumptions C18_data_length.
+
+(* ---- distances along the path (Transect.points, distance_along_line) ---- *)
+
+(* a point is measured from a vertex at or before it, and every later vertex lies beyond the point *)
+Theorem C18_measured_from_last_vertex_before : forall vs t v, pick vs t = Some v ->
+  exists pre post, vs = pre ++ v :: post /\ norm v <= t /\ Forall (fun w => ~ norm w <= t) post.
+Proof. exact pick_spec. Qed.
+Print Assumptions C18_measured_from_last_vertex_before.
+
+(* with vertices in increasing position: the vertices at or before the point are exactly those up to the picked one *)
+Theorem C18_picked_vertex_starts_the_leg : forall vs t v, StronglySorted norm_lt vs -> pick vs t = Some v ->
+  forall w, In w vs -> (norm w <= t <-> norm w <= norm v).
+Proof. exact pick_is_last_before. Qed.
+Print Assumptions C18_picked_vertex_starts_the_leg.
+
+(* every point at or after the first vertex is measured from some vertex *)
+Theorem C18_every_point_measured : forall v0 vs t, norm v0 <= t -> pick (v0 :: vs) t <> None.
+Proof. exact pick_first_vertex. Qed.
+Print Assumptions C18_every_point_measured.
+
+(* accumulated distances never decrease along the path (legs have non-negative length) ... *)
+Theorem C18_accumulated_monotone : forall legs c d i j, Forall (fun l => 0 <= l) legs -> (i <= j)%nat -> (j <= length legs)%nat ->
+  nth i (accumulate c legs) d <= nth j (accumulate c legs) d.
+Proof. exact accumulate_mono. Qed.
+Print Assumptions C18_accumulated_monotone.
+
+(* ... so order along the path is order of the reported distance: a point on leg i (no further from vertex i than the
+   leg is long) is reported no later than any point measured from a later vertex *)
+Theorem C18_path_order_is_distance_order : forall legs d i j di dj,
+  Forall (fun l => 0 <= l) legs -> (i < j)%nat -> (j <= length legs)%nat ->
+  di <= nth i legs 0 -> 0 <= dj ->
+  nth i (accumulate 0 legs) d + di <= nth j (accumulate 0 legs) d + dj.
+Proof. exact earlier_leg_smaller_distance. Qed.
+Print Assumptions C18_path_order_is_distance_order.
